@@ -6,6 +6,8 @@ ORD_OPS = ["==", "!=", ">", "<", ">=", "<="]
 # kind -> (literal, field values around it; all mutually comparable with the literal)
 ORD_KINDS = {
     "int": (5, [4, 5, 6, 4.5, 5.0, 5.5, -5]),
+    "special": (10.5, [10.5, 10, 11, float("nan"), float("inf"), float("-inf"), -0.0, 1e308, 5e-324]),
+    "bigint": (2**53, [2**53, 2**53 + 1, 2**53 - 1, float(2**53), 2.0**53 + 2, float("nan")]),
     "negint": (-3, [-4, -3, -2, -3.5, -2.5, 3]),
     "zero": (0, [-1, 0, 1, 0.0, -0.5, 0.5]),
     "dec": (2.5, [2, 2.5, 3, 2.4999, 2.5001, -2.5]),
@@ -25,6 +27,13 @@ IN_KINDS = {
     "single": ((7,), [7, 8, (7,), 7.0]),
     "neg": ((-1, -2.5, "x"), [-1, -2.5, "x", 1, 2.5]),
     "deep": ((1, (2, (3, 4))), [1, (2, (3, 4)), (3, 4), 2]),
+    # long gap-free integer tuples (a tempting "range check" rewrite) and a long one with a gap
+    "run8": (tuple(range(3, 11)), [3, 10, 2, 11, 6.5, 6.0, 3.0000001, "6", float("nan"), float("inf"), None]),
+    "run10": (tuple(range(3, 13)), [3, 12, 13, 7.5, 7.0, -7, "7", float("nan")]),
+    "run40": (tuple(range(0, 40)), [0, 39, 40, -1, 20.5, 20.0, "20", float("nan")]),
+    "gap9": ((1, 2, 3, 4, 6, 7, 8, 9, 10), [5, 4, 6, 5.0, 4.5, 0, 11]),
+    "strs9": (tuple("abcdefghi"), ["a", "i", "j", "", "ab", "A"]),
+    "negrun": (tuple(range(-4, 5)), [-4, 4, -5, 5, 0.5, -0.0, 0]),
 }
 
 # run-time containers passed as field values (right operand of in / not in is a field)
@@ -36,6 +45,21 @@ RT_CONTAINERS = [
     ({"k": 1}, ["k", 1]),
     ((), [1]),
 ]
+
+
+def expressible(v):
+    """can v be written as a DSL literal?"""
+    import math
+
+    if isinstance(v, bool) or v is None:
+        return False
+    if isinstance(v, float):
+        return math.isfinite(v)
+    if isinstance(v, tuple):
+        return len(v) > 0 and all(expressible(x) for x in v)
+    if isinstance(v, str):
+        return "\n" not in v and not ('"' in v and "'" in v)
+    return isinstance(v, int)
 
 
 def term_of(v):
@@ -53,13 +77,13 @@ def op_cases():
             yield (f"{kind}:f{op}lit", ("cmp", F, op, L), [{"f": v} for v in vals])
             yield (f"{kind}:lit{op}f", ("cmp", L, op, F), [{"f": v} for v in vals])
             yield (f"{kind}:f{op}g", ("cmp", F, op, G), [{"f": a, "g": b} for a in vals for b in vals])
-            for v2 in vals[:4]:
+            for v2 in [x for x in vals if expressible(x)][:4]:
                 yield (f"{kind}:lit{op}lit", ("cmp", L, op, term_of(v2)), [{}])
     for kind, (cont, vals) in IN_KINDS.items():
         C = term_of(cont)
         for op in ("in", "not in"):
             yield (f"{kind}:f {op} LIT", ("cmp", F, op, C), [{"f": v} for v in vals])
-            for v in vals:
+            for v in [x for x in vals if expressible(x)]:
                 yield (f"{kind}:lit {op} LIT", ("cmp", term_of(v), op, C), [{}])
             # tuple literal holding identifiers: f in (g, 2)  -- grammar: term -> ID inside tuples
             yield (f"{kind}:f {op} (g,lit)", ("cmp", F, op, ("tup", (G, term_of(vals[1])))),
@@ -67,7 +91,7 @@ def op_cases():
     for cont, vals in RT_CONTAINERS:
         for op in ("in", "not in"):
             yield (f"rt:{type(cont).__name__}:f {op} g", ("cmp", F, op, G), [{"f": v, "g": cont} for v in vals])
-            for v in vals:
+            for v in [x for x in vals if expressible(x)]:
                 yield (f"rt:{type(cont).__name__}:lit {op} g", ("cmp", term_of(v), op, G), [{"g": cont}])
 
 
@@ -76,10 +100,10 @@ def op_cases():
 CROSS_ATOMS = [
     ("==", ("lit", 5), [4, 5, 6]),
     ("!=", ("lit", "a"), ["a", "b", ""]),
-    (">", ("lit", 2.5), [2.5, 2.6, 2]),
-    ("<", ("lit", -3), [-4, -3, -2]),
-    (">=", ("lit", 18), [17, 18, 19]),
-    ("<=", ("lit", 0), [-1, 0, 1]),
+    (">", ("lit", 2.5), [2.5, 2.6, 2, float("nan")]),
+    ("<", ("lit", -3), [-4, -3, -2, float("nan")]),
+    (">=", ("lit", 18), [17, 18, 19, float("nan")]),
+    ("<=", ("lit", 0), [-1, 0, 1, float("nan")]),
     ("in", ("tup", (("lit", 1), ("lit", "x"))), [1, "x", 2]),
     ("not in", ("tup", (("lit", 1), ("lit", "x"))), [1, "x", 2]),
 ]
